@@ -213,6 +213,12 @@ func VP_C12_literals() {
 		vpAssert("C12/literals/neighbour-literal-exact", other != nil && vpBigEq(other, false, uint64(7+3*(pos-3)), 0))
 		v = arr[4-pos]
 	}
+	if pos == 5 && (exp-frac > 6000 || exp-frac < -6000) {
+		// unary minus computes in the decimal128 context: beyond its exponent range the negated
+		// literal overflows / underflows, which C12 (about the literal itself) does not speak of
+		vpReach("C12/literals/negated-beyond-decimal128-range")
+		return
+	}
 	if pos == 5 {
 		// the second evaluation of the same tree (fresh runner) is the one judged
 		v2, rerr2 := vpExact(NewRunner(), context.Background(), code.Expression)
